@@ -562,4 +562,52 @@ theorem C18_generated_incremental (Y : YieldFn) (F : BodyFn)
     rw [hstepB]
     exact this
 
+/-! ## Non-vacuity of the build-level / two-build theorems -/
+
+set_option maxRecDepth 8000 in
+/-- `C18_rerun_runs` on the F11 project after a file was dropped in: all side conditions hold. -/
+example : (stepOf f11Y f11F f11S3 1).log = f11S3.log ++ [1] :=
+  C18_rerun_runs f11Y f11F [f11Task] f11W3 f11S3 f11S3 f11S3' [] 1 [] (by rfl) (by rfl) (by rfl) f11Task (by decide +kernel) rfl
+    (by decide +kernel) ⟨500000, 1000, 5⟩ (by decide) 1002 (by decide +kernel) (by decide +kernel) (by decide +kernel)
+    (by decide) rfl (by decide +kernel) (by decide +kernel)
+
+def exFull : Prov.Sess := match loop exY f11F exS0 [1, 2, 3, 21000, 21001] with | .ok s => s | .error _ => exDummy
+
+set_option maxRecDepth 8000 in
+/-- `C18_consumer_sees_producer_output` for the consumer's invocation in the complete first build -/
+example := C18_consumer_sees_producer_output exY f11F exTs exW exS0 exFull [1, 2, 3, 21000, 21001] (by rfl) (by rfl)
+  ⟨3, [[1000, 1001]], [[1000, 1001]]⟩ (by decide +kernel)
+
+/-! Second build of the same project on the world the first one left (no edits): the copy task 21000 is defined again by
+the generator and skipped; with its source file 1000 rewritten it is executed. -/
+def exK : PTask := { id := 21000, src := 9000, deps := [1000], prods := [21000] }
+def exSmA : Prov.Sess := match loop exY f11F exS0 [1, 2, 3] with | .ok s => s | .error _ => exDummy
+def exB0 : Prov.Sess := (initSess exTs ⟨exFull.w.fs, exFull.w.db⟩).getD exDummy
+def exSmB : Prov.Sess := match loop exY f11F exB0 [1, 2, 3] with | .ok s => s | .error _ => exDummy
+def exSB : Prov.Sess := match loop exY f11F exSmB [21000, 21001] with | .ok s => s | .error _ => exDummy
+
+set_option maxRecDepth 8000 in
+example : (stepOf exY f11F exSmB 21000).log = exSmB.log ∧
+    (stepOf exY f11F exSmB 21000).reports = exSmB.reports ++ [(21000, Outcome.skipUnchanged)] :=
+  (C18_generated_incremental exY f11F exTs exW exS0 exSmA exFull [1, 2, 3] 21000 [21001] (by rfl) (by rfl) (by rfl)
+    exK (by decide +kernel) rfl rfl rfl rfl (by decide +kernel) (by decide +kernel) (by decide +kernel)
+    exTs exFull.w.fs exB0 exSmB exSB [1, 2, 3] [21001] (by rfl) (by rfl) (by rfl)
+    (by decide +kernel) (by decide +kernel) (by decide +kernel)).1 (by decide +kernel)
+
+set_option maxRecDepth 8000 in
+/-- in that second build the generator ran again (it is the only body that did) -/
+example : exSmB.log = [2] := by decide +kernel
+
+def exB0' : Prov.Sess := (initSess exTs ⟨Engine.insert exFull.w.fs 1000 77, exFull.w.db⟩).getD exDummy
+def exSmB' : Prov.Sess := match loop exY f11F exB0' [1, 2, 3] with | .ok s => s | .error _ => exDummy
+def exSB' : Prov.Sess := match loop exY f11F exSmB' [21000, 21001] with | .ok s => s | .error _ => exDummy
+
+set_option maxRecDepth 8000 in
+example : (stepOf exY f11F exSmB' 21000).log = exSmB'.log ++ [21000] :=
+  (C18_generated_incremental exY f11F exTs exW exS0 exSmA exFull [1, 2, 3] 21000 [21001] (by rfl) (by rfl) (by rfl)
+    exK (by decide +kernel) rfl rfl rfl rfl (by decide +kernel) (by decide +kernel) (by decide +kernel)
+    exTs (Engine.insert exFull.w.fs 1000 77) exB0' exSmB' exSB' [1, 2, 3] [21001] (by rfl) (by rfl) (by rfl)
+    (by decide +kernel) (by decide +kernel) (by decide +kernel)).2 1000 (by decide) (by decide +kernel) (by decide +kernel)
+    (by decide +kernel)
+
 end Pytask
